@@ -150,39 +150,6 @@ theorem T_C16_trait (v : Variant) (attr : Toks) (t : TraitItem) (out : Out)
 
 /-! ### impl blocks: `__impl` is the macro's own first parameter -/
 
-theorem parseOptSegs_inv {σ : Type} (set : σ → Opt → Option σ) (Q : σ → Prop)
-    (hset : ∀ st o st', set st o = some st' → Q st → Q st') :
-    ∀ (segs : List Toks) (st st' : σ), Q st → parseOptSegs set st segs = .ok st' → Q st'
-  | [], st, st', hq, h => by simp [parseOptSegs] at h; subst h; exact hq
-  | seg :: segs, st, st', hq, h => by
-      unfold parseOptSegs at h
-      split at h
-      · simp at h
-      · rename_i opt rest _
-        split at h
-        · simp at h
-        · rename_i st1 hs
-          split at h
-          · exact parseOptSegs_inv set Q hset segs st1 st' (hset st opt st1 hs hq) h
-          · simp at h
-
-theorem implAttr_noDeps {ts : Toks} {a : ImplAttr} (h : parseImplAttr ts = .ok a) : a.opts.noDeps = none := by
-  unfold parseImplAttr parseImplOpts at h
-  simp only at h
-  have hset : ∀ (st : ImplAttr) (o : Opt) (st' : ImplAttr), ImplAttr.set st o = some st' →
-      st.opts.noDeps = none → st'.opts.noDeps = none := by
-    intro st o st' hs hq
-    cases o <;> simp [ImplAttr.set] at hs
-    subst hs; exact hq
-  split at h
-  · injection h with h; subst h; rfl
-  · refine parseOptSegs_inv ImplAttr.set (fun st => st.opts.noDeps = none) hset _ _ _ ?_ h
-    rfl
-
-theorem apply_noDepsValue (v : Variant) (o : Opts) : (v.apply o).noDepsValue = o.noDepsValue := by
-  unfold Variant.apply Opts.noDepsValue
-  split <;> split <;> rfl
-
 theorem paramIdents_cons_plain (a : List Attr) (n : String) (t : Ty) (xs : List FnArg) :
     paramIdents (.typed a (.ident false false n none) t :: xs) = n :: paramIdents xs := rfl
 
